@@ -119,6 +119,13 @@ CHECKS = {
         "note": "Trusted: TLC; the harness's directory snapshots (SHA-256) and its library call on a copy of the input as the standard.",
         "technique": "TLA+ outcome relation (Cli) + TLC validation of recorded runs of the real tsh binary over TLC-enumerated invocations",
     },
+    "C16": {
+        "text": "spec/Emit.tla is the emission protocol between the transpiler and a converter as a trace specification: open constructs own their labels, jumps must land on the label "
+                "their construct defines, no label twice, every target defined, balanced parentheses, helper routines present exactly when called. A decorator around the real Batch "
+                "converter records every Converter call with the line facts of what it appended; TLC validates each trace. Bash scripts are checked with `bash -n`.",
+        "note": "Trusted: TLC; attribution of lines to converter calls by Dump() diff (checked insertion-only); recognition of labels/jumps/calls by line shape; bash -n.",
+        "technique": "TLA+ protocol trace specification (Emit) + TLC validation of recorded converter-call traces; bash -n for the Bash target",
+    },
 }
 
 NOT_APPLICABLE = {}
